@@ -4,6 +4,7 @@ import (
 	"encoding/hex"
 	"encoding/json"
 	"fmt"
+	"net/http"
 	"sort"
 	"strings"
 	"sync"
@@ -286,7 +287,7 @@ func (w *world) routes(o *c.Out) {
 	e := w.e
 	type rt struct{ method, pattern string }
 	var seen []rt
-	chi.Walk(e.Mux, func(method, route string, _ httpHandler, _ ...func(httpHandler) httpHandler) error {
+	chi.Walk(e.Mux, func(method, route string, _ http.Handler, _ ...func(http.Handler) http.Handler) error {
 		route = strings.TrimPrefix(route, "/acme")
 		seen = append(seen, rt{method, route})
 		return nil
@@ -367,7 +368,7 @@ func (w *world) routes(o *c.Out) {
 		impl := fmt.Sprintf("sel=%s pag=%s parse=%s validate=%s verify=%s nonce=%s", sel, c.B(pag),
 			c.B(vGood != "400:malformed" && vRaw == "400:malformed"), c.B(vNonce == "400:badNonce"),
 			c.B(vGood != "400:malformed" && vSig == "400:malformed"), c.B(hasNonce))
-		if vGood != "ok" && vGood != "501:notImplemented" {
+		if vGood != "ok" && vGood != "501:rejectedIdentifier" {
 			impl += " good=" + vGood
 		}
 		emit(r.method, r.pattern, impl)
